@@ -23,7 +23,7 @@ const EARLIEST_EXPIRY: i64 = 1_640_995_200;
 const OUT_OF_RANGE: i64 = 400_000_000_000; // beyond year 9999
 
 struct World {
-  k: [crypto::signatures::ed25519::SecretKey; 3],
+  k: [crypto::signatures::ed25519::SecretKey; 4],
   holder: CoreDocument,
 }
 
@@ -32,16 +32,25 @@ fn world() -> World {
     crypto::signatures::ed25519::SecretKey::from_bytes(&[0x31u8; 32]),
     crypto::signatures::ed25519::SecretKey::from_bytes(&[0x32u8; 32]),
     crypto::signatures::ed25519::SecretKey::from_bytes(&[0x33u8; 32]),
+    crypto::signatures::ed25519::SecretKey::from_bytes(&[0x34u8; 32]),
   ];
   let mut holder = CoreDocument::builder(Object::new()).id(did("holder")).build().unwrap();
+  // decoy: a foreign-DID method with the holder's fragment, listed first
+  holder
+    .insert_method(VerificationMethod::new_from_jwk(did("other"), pub_jwk(&k[3]), Some("key-1")).unwrap(), MethodScope::VerificationMethod)
+    .unwrap();
   holder
     .insert_method(VerificationMethod::new_from_jwk(did("holder"), pub_jwk(&k[0]), Some("key-1")).unwrap(), MethodScope::VerificationMethod)
     .unwrap();
-  holder.attach_method_relationship("key-1", MethodRelationship::Authentication).unwrap();
+  holder
+    .attach_method_relationship(&DIDUrl::parse("did:example:holder#key-1").unwrap(), MethodRelationship::Authentication)
+    .unwrap();
   holder
     .insert_method(VerificationMethod::new_from_jwk(did("holder"), pub_jwk(&k[1]), Some("key-2")).unwrap(), MethodScope::VerificationMethod)
     .unwrap();
-  holder.attach_method_relationship("key-2", MethodRelationship::AssertionMethod).unwrap();
+  holder
+    .attach_method_relationship(&DIDUrl::parse("did:example:holder#key-2").unwrap(), MethodRelationship::AssertionMethod)
+    .unwrap();
   // a key of a foreign DID listed in the holder document
   holder
     .insert_method(
@@ -64,6 +73,7 @@ fn key_idx(k: &str) -> usize {
   match k {
     "K1" => 0,
     "K2" => 1,
+    "K4" => 3,
     _ => 2,
   }
 }
@@ -122,6 +132,30 @@ fn build(row: &Value, w: &World) -> (Jwt, JwtPresentationValidationOptions, Expe
       "other" => json!("did:example:other"),
       _ => json!("https://example.org/holder"),
     };
+  } else if s(&row["part"]) == "T" {
+    let year = |t: &str| -> i64 {
+      let y: i64 = t[1..].parse().unwrap();
+      Timestamp::parse(&format!("{y:04}-06-15T12:00:00Z")).unwrap().to_unix()
+    };
+    let o = claims.as_object_mut().unwrap();
+    o.remove("nbf");
+    o.remove("exp");
+    expect.exp = None;
+    if s(&row["exp"]) != "absent" {
+      o.insert("exp".into(), json!(year(s(&row["exp"]))));
+      expect.exp = Some(year(s(&row["exp"])));
+    }
+    o.insert("iat".into(), json!(year(s(&row["iat"]))));
+    expect.issuance = Some(year(s(&row["iat"])));
+    let jwt = sign_jwt(&serde_json::to_string(&claims).unwrap(), kid.as_deref(), nonce, sk);
+    let mut opts = JwtPresentationValidationOptions::new().presentation_verifier_options(v);
+    if matches!(s(&row["bounds"]), "both" | "only_earliest_expiry") {
+      opts = opts.earliest_expiry_date(Timestamp::parse("2005-06-15T12:00:00Z").unwrap());
+    }
+    if matches!(s(&row["bounds"]), "both" | "only_latest_issuance") {
+      opts = opts.latest_issuance_date(Timestamp::parse("2001-06-15T12:00:00Z").unwrap());
+    }
+    return (jwt, opts, expect);
   } else {
     let o = claims.as_object_mut().unwrap();
     match s(&row["exp"]) {
